@@ -165,6 +165,13 @@ where
     type Err = T::Error;
 
     fn from_str(s: &str) -> Result<Self, Self::Err> {
+        #[cfg(purl_verif)]
+        if !crate::verif_trace::active(crate::verif_trace::Hook::Parse) {
+            let r = crate::verif_trace::inside(crate::verif_trace::Hook::Parse, || Self::from_str(s));
+            crate::verif_trace::log_parse(s, &r);
+            return r;
+        }
+
         // This mostly follows the procedure documented in the PURL spec.
         // https://github.com/package-url/purl-spec/blob/master/PURL-SPECIFICATION.rst#how-to-parse-a-purl-string-in-its-components
 
